@@ -219,3 +219,382 @@ func runFrameGen(r *Repo) (string, error) {
 	b.WriteString("].\n")
 	return b.String(), nil
 }
+
+// VecGen: the iovec-advance code of vecnet/vecnet_linux.go readFromBuffersLinux (C17, C02-m4, C17-m3),
+// read statement by statement into the little language of coq/Frame/Imp.v.  The region translated is the
+// body of the receive loop (the `for` that calls recvmsg) minus the recvmsg call itself, the error guard
+// (an `if` that returns) and updates of the loop's own counter; what remains is the code that advances
+// bufs by the `cur` bytes one recvmsg returned.  The comparison with the model (Frame/Reader.v consume_iov)
+// is semantic (Frame/VecTie.v runs the program), so names of locals and the way the loop is written are free.
+func init() { register(Generator{Name: "VecGen", Run: runVecGen}) }
+
+type vecTr struct {
+	r    *Repo
+	bufs string // name of the Buffers parameter
+}
+
+func (v *vecTr) stripConv(e ast.Expr) ast.Expr {
+	for {
+		switch x := e.(type) {
+		case *ast.ParenExpr:
+			e = x.X
+			continue
+		case *ast.CallExpr:
+			if id, ok := x.Fun.(*ast.Ident); ok && len(x.Args) == 1 {
+				switch id.Name {
+				case "int", "int64", "int32", "uint", "uint32", "uint64", "uintptr":
+					e = x.Args[0]
+					continue
+				}
+			}
+		}
+		return e
+	}
+}
+
+func (v *vecTr) isBufs(e ast.Expr) bool {
+	id, ok := v.stripConv(e).(*ast.Ident)
+	return ok && id.Name == v.bufs
+}
+
+// bufs[0]
+func (v *vecTr) isHead(e ast.Expr) bool {
+	ix, ok := v.stripConv(e).(*ast.IndexExpr)
+	if !ok || !v.isBufs(ix.X) {
+		return false
+	}
+	bl, ok := ix.Index.(*ast.BasicLit)
+	return ok && bl.Value == "0"
+}
+
+func (v *vecTr) iexp(e ast.Expr) (string, error) {
+	e = v.stripConv(e)
+	switch x := e.(type) {
+	case *ast.BasicLit:
+		if x.Kind == token.INT {
+			n, err := strconv.ParseInt(x.Value, 0, 64)
+			if err == nil {
+				return fmt.Sprintf("(ILit %d)", n), nil
+			}
+		}
+	case *ast.Ident:
+		if x.Name != v.bufs {
+			return fmt.Sprintf("(IVar %s)", CoqString(x.Name)), nil
+		}
+	case *ast.CallExpr:
+		if id, ok := x.Fun.(*ast.Ident); ok && id.Name == "len" && len(x.Args) == 1 {
+			if v.isBufs(x.Args[0]) {
+				return "ILenBufs", nil
+			}
+			if v.isHead(x.Args[0]) {
+				return "ILenHead", nil
+			}
+		}
+	case *ast.BinaryExpr:
+		if x.Op == token.ADD || x.Op == token.SUB {
+			a, err := v.iexp(x.X)
+			if err != nil {
+				return "", err
+			}
+			b, err := v.iexp(x.Y)
+			if err != nil {
+				return "", err
+			}
+			if x.Op == token.ADD {
+				return fmt.Sprintf("(IAdd %s %s)", a, b), nil
+			}
+			return fmt.Sprintf("(ISub %s %s)", a, b), nil
+		}
+	}
+	return "", v.r.Refuse(e.Pos(), "integer expression in the iovec-advance code")
+}
+
+func (v *vecTr) bexp(e ast.Expr) (string, error) {
+	if p, ok := e.(*ast.ParenExpr); ok {
+		return v.bexp(p.X)
+	}
+	switch x := e.(type) {
+	case *ast.UnaryExpr:
+		if x.Op == token.NOT {
+			c, err := v.bexp(x.X)
+			if err != nil {
+				return "", err
+			}
+			return fmt.Sprintf("(BNot %s)", c), nil
+		}
+	case *ast.BinaryExpr:
+		switch x.Op {
+		case token.LAND, token.LOR:
+			a, err := v.bexp(x.X)
+			if err != nil {
+				return "", err
+			}
+			b, err := v.bexp(x.Y)
+			if err != nil {
+				return "", err
+			}
+			if x.Op == token.LAND {
+				return fmt.Sprintf("(BAnd %s %s)", a, b), nil
+			}
+			return fmt.Sprintf("(BOr %s %s)", a, b), nil
+		case token.LEQ, token.LSS, token.GEQ, token.GTR, token.EQL, token.NEQ:
+			a, err := v.iexp(x.X)
+			if err != nil {
+				return "", err
+			}
+			b, err := v.iexp(x.Y)
+			if err != nil {
+				return "", err
+			}
+			switch x.Op {
+			case token.LEQ:
+				return fmt.Sprintf("(BLe %s %s)", a, b), nil
+			case token.LSS:
+				return fmt.Sprintf("(BLt %s %s)", a, b), nil
+			case token.GEQ:
+				return fmt.Sprintf("(BLe %s %s)", b, a), nil
+			case token.GTR:
+				return fmt.Sprintf("(BLt %s %s)", b, a), nil
+			case token.EQL:
+				return fmt.Sprintf("(BEq %s %s)", a, b), nil
+			default:
+				return fmt.Sprintf("(BNot (BEq %s %s))", a, b), nil
+			}
+		}
+	}
+	return "", v.r.Refuse(e.Pos(), "condition in the iovec-advance code")
+}
+
+func (v *vecTr) block(l []ast.Stmt) (string, error) {
+	var out []string
+	for _, s := range l {
+		ss, err := v.stmt(s)
+		if err != nil {
+			return "", err
+		}
+		out = append(out, ss...)
+	}
+	return "[" + strings.Join(out, "; ") + "]", nil
+}
+
+func (v *vecTr) stmt(s ast.Stmt) ([]string, error) {
+	switch x := s.(type) {
+	case *ast.EmptyStmt:
+		return nil, nil
+	case *ast.BlockStmt:
+		var out []string
+		for _, t := range x.List {
+			ss, err := v.stmt(t)
+			if err != nil {
+				return nil, err
+			}
+			out = append(out, ss...)
+		}
+		return out, nil
+	case *ast.BranchStmt:
+		if x.Tok == token.BREAK && x.Label == nil {
+			return []string{"SBreak"}, nil
+		}
+	case *ast.IncDecStmt:
+		if id, ok := x.X.(*ast.Ident); ok && id.Name != v.bufs {
+			op := "IAdd"
+			if x.Tok == token.DEC {
+				op = "ISub"
+			}
+			return []string{fmt.Sprintf("SSet %s (%s (IVar %s) (ILit 1))", CoqString(id.Name), op, CoqString(id.Name))}, nil
+		}
+	case *ast.AssignStmt:
+		if len(x.Lhs) != 1 || len(x.Rhs) != 1 {
+			break
+		}
+		// bufs = bufs[e:]
+		if v.isBufs(x.Lhs[0]) && x.Tok == token.ASSIGN {
+			if se, ok := x.Rhs[0].(*ast.SliceExpr); ok && v.isBufs(se.X) && se.High == nil && se.Max == nil && se.Low != nil {
+				e, err := v.iexp(se.Low)
+				if err != nil {
+					return nil, err
+				}
+				return []string{fmt.Sprintf("SDrop %s", e)}, nil
+			}
+			break
+		}
+		// bufs[0] = bufs[0][e:]
+		if v.isHead(x.Lhs[0]) && x.Tok == token.ASSIGN {
+			if se, ok := x.Rhs[0].(*ast.SliceExpr); ok && v.isHead(se.X) && se.High == nil && se.Max == nil && se.Low != nil {
+				e, err := v.iexp(se.Low)
+				if err != nil {
+					return nil, err
+				}
+				return []string{fmt.Sprintf("SAdvHead %s", e)}, nil
+			}
+			break
+		}
+		id, ok := x.Lhs[0].(*ast.Ident)
+		if !ok || id.Name == v.bufs {
+			break
+		}
+		e, err := v.iexp(x.Rhs[0])
+		if err != nil {
+			return nil, err
+		}
+		switch x.Tok {
+		case token.DEFINE, token.ASSIGN:
+			return []string{fmt.Sprintf("SSet %s %s", CoqString(id.Name), e)}, nil
+		case token.ADD_ASSIGN:
+			return []string{fmt.Sprintf("SSet %s (IAdd (IVar %s) %s)", CoqString(id.Name), CoqString(id.Name), e)}, nil
+		case token.SUB_ASSIGN:
+			return []string{fmt.Sprintf("SSet %s (ISub (IVar %s) %s)", CoqString(id.Name), CoqString(id.Name), e)}, nil
+		}
+	case *ast.IfStmt:
+		if x.Init != nil {
+			break
+		}
+		c, err := v.bexp(x.Cond)
+		if err != nil {
+			return nil, err
+		}
+		t, err := v.block(x.Body.List)
+		if err != nil {
+			return nil, err
+		}
+		el := "[]"
+		if x.Else != nil {
+			el, err = v.block([]ast.Stmt{x.Else})
+			if err != nil {
+				return nil, err
+			}
+		}
+		return []string{fmt.Sprintf("SIf %s %s %s", c, t, el)}, nil
+	case *ast.ForStmt:
+		var out []string
+		if x.Init != nil {
+			ss, err := v.stmt(x.Init)
+			if err != nil {
+				return nil, err
+			}
+			out = append(out, ss...)
+		}
+		c := "(BLe (ILit 0) (ILit 0))"
+		if x.Cond != nil {
+			var err error
+			c, err = v.bexp(x.Cond)
+			if err != nil {
+				return nil, err
+			}
+		}
+		body, err := v.block(x.Body.List)
+		if err != nil {
+			return nil, err
+		}
+		post := "[]"
+		if x.Post != nil {
+			post, err = v.block([]ast.Stmt{x.Post})
+			if err != nil {
+				return nil, err
+			}
+		}
+		return append(out, fmt.Sprintf("SLoop %s %s %s", c, body, post)), nil
+	}
+	return nil, v.r.Refuse(s.Pos(), "statement in the iovec-advance code of readFromBuffersLinux")
+}
+
+func containsCall(n ast.Node, name string) bool {
+	found := false
+	ast.Inspect(n, func(m ast.Node) bool {
+		if ce, ok := m.(*ast.CallExpr); ok {
+			if id, ok := ce.Fun.(*ast.Ident); ok && id.Name == name {
+				found = true
+			}
+		}
+		return !found
+	})
+	return found
+}
+
+func containsReturn(n ast.Node) bool {
+	found := false
+	ast.Inspect(n, func(m ast.Node) bool {
+		if _, ok := m.(*ast.ReturnStmt); ok {
+			found = true
+		}
+		return !found
+	})
+	return found
+}
+
+func runVecGen(r *Repo) (string, error) {
+	fds, err := r.FuncDecls("vecnet")
+	if err != nil {
+		return "", err
+	}
+	fd, ok := fds["readFromBuffersLinux"]
+	if !ok || fd.Body == nil {
+		return "", fmt.Errorf("vecnet: func readFromBuffersLinux not found")
+	}
+	if fd.Type.Params == nil || len(fd.Type.Params.List) == 0 || len(fd.Type.Params.List[0].Names) != 1 {
+		return "", r.Refuse(fd.Pos(), "parameters of readFromBuffersLinux")
+	}
+	v := &vecTr{r: r, bufs: fd.Type.Params.List[0].Names[0].Name}
+	// the receive loop: the outermost for statement containing the recvmsg call
+	var loop *ast.ForStmt
+	for _, s := range fd.Body.List {
+		if fs, ok := s.(*ast.ForStmt); ok && containsCall(fs, "recvmsg") {
+			if loop != nil {
+				return "", r.Refuse(fs.Pos(), "second receive loop")
+			}
+			loop = fs
+		}
+	}
+	if loop == nil {
+		return "", r.Refuse(fd.Pos(), "no for loop calling recvmsg in readFromBuffersLinux")
+	}
+	counter := ""
+	if as, ok := loop.Init.(*ast.AssignStmt); ok && len(as.Lhs) == 1 {
+		if id, ok := as.Lhs[0].(*ast.Ident); ok {
+			counter = id.Name
+		}
+	}
+	cur := ""
+	var region []ast.Stmt
+	for _, s := range loop.Body.List {
+		if as, ok := s.(*ast.AssignStmt); ok && containsCall(as, "recvmsg") {
+			if cur != "" || len(as.Lhs) < 1 {
+				return "", r.Refuse(as.Pos(), "recvmsg call")
+			}
+			id, ok := as.Lhs[0].(*ast.Ident)
+			if !ok {
+				return "", r.Refuse(as.Pos(), "recvmsg result")
+			}
+			cur = id.Name
+			if len(region) != 0 {
+				return "", r.Refuse(as.Pos(), "buffers are advanced before recvmsg is called")
+			}
+			continue
+		}
+		if is, ok := s.(*ast.IfStmt); ok && containsReturn(is) {
+			continue // error guard
+		}
+		if as, ok := s.(*ast.AssignStmt); ok && len(as.Lhs) == 1 && counter != "" {
+			if id, ok := as.Lhs[0].(*ast.Ident); ok && id.Name == counter {
+				continue // n += int64(cur)
+			}
+		}
+		region = append(region, s)
+	}
+	if cur == "" {
+		return "", r.Refuse(loop.Pos(), "no `cur, err := recvmsg(...)` in the receive loop")
+	}
+	if containsCall(&ast.BlockStmt{List: region}, "recvmsg") {
+		return "", r.Refuse(loop.Pos(), "recvmsg called inside the advance code")
+	}
+	prog, err := v.block(region)
+	if err != nil {
+		return "", err
+	}
+	var b strings.Builder
+	b.WriteString("From Coq Require Import ZArith List String.\nFrom P9V Require Import Frame.Imp.\nImport ListNotations.\nOpen Scope string_scope.\nOpen Scope Z_scope.\n\n")
+	b.WriteString("(** vecnet/vecnet_linux.go readFromBuffersLinux: what runs after each recvmsg to advance bufs by the bytes it returned *)\n")
+	fmt.Fprintf(&b, "Definition vec_cur_name : string := %s.\n", CoqString(cur))
+	fmt.Fprintf(&b, "Definition vec_advance : list stmt :=\n  %s.\n", prog)
+	return b.String(), nil
+}
